@@ -2855,6 +2855,407 @@ fn case_back_hpack(ctx: &mut Ctx, tls: Option<&mut TlsCtx>, name: &str, start: O
     last
 }
 
+// --------------------------------------- receiver-side ledger (h2front, C14) --
+//
+// The client keeps the ledger of the receive windows sozu ADVERTISES: the connection window
+// (65535 + every WINDOW_UPDATE on stream 0) and one window per stream (sozu's
+// SETTINGS_INITIAL_WINDOW_SIZE + WINDOW_UPDATEs on the stream), minus every flow-controlled
+// byte it sends; it never sends beyond them. Uploads that sozu accepts are mixed with uploads
+// pipelined behind HEADERS that sozu rejects / resets while the body is still in flight. Every
+// DATA byte, whatever happens to its stream, consumes connection window and must be given back.
+
+#[derive(Clone, Copy, Debug, PartialEq)]
+enum RxStep {
+    /// well-formed POST of `n` bytes, must be answered 200
+    Accept(usize),
+    /// HEADERS sozu has to reject (cause), with up to `n` body bytes written right behind them
+    Reject(&'static str, usize),
+}
+
+struct LedgerClient {
+    st: TlsStream,
+    rx: Vec<u8>,
+    pos: usize,
+    enc: loona_hpack::Encoder<'static>,
+    dec: loona_hpack::Decoder<'static>,
+    /// sozu's SETTINGS_INITIAL_WINDOW_SIZE
+    peer_init: i64,
+    /// what is left of the connection window sozu advertised
+    conn_avail: i64,
+    stream_avail: BTreeMap<u32, i64>,
+    /// sum of the WINDOW_UPDATE(0) increments
+    conn_credit: i64,
+    sent_total: i64,
+    data_started: bool,
+    /// 65535 + the connection credit received before the first DATA byte: sozu's full window
+    full_window: i64,
+    rst: BTreeMap<u32, u32>,
+    status: BTreeMap<u32, String>,
+    ended: std::collections::BTreeSet<u32>,
+    goaway: Option<(u32, u32)>,
+    settings_seen: bool,
+    settings_acked: bool,
+    closed: Option<String>,
+    out: Vec<u8>,
+}
+
+impl LedgerClient {
+    fn flush(&mut self) {
+        use std::io::Write;
+        if !self.out.is_empty() {
+            if self.st.write_all(&self.out).and_then(|_| self.st.flush()).is_err() {
+                let _ = self.st.flush();
+            }
+            self.out.clear();
+        }
+    }
+
+    /// one socket read (bounded by the stream's io timeout) and everything it completes
+    fn pump(&mut self) {
+        use std::io::Read;
+        self.flush();
+        let mut buf = [0u8; 16384];
+        match self.st.read(&mut buf) {
+            Ok(0) => self.closed = Some("connection closed by sozu".into()),
+            Ok(n) => self.rx.extend_from_slice(&buf[..n]),
+            Err(e) if e.kind() == std::io::ErrorKind::WouldBlock || e.kind() == std::io::ErrorKind::TimedOut => {}
+            Err(e) => self.closed = Some(format!("read: {e}")),
+        }
+        while self.rx.len() - self.pos >= 9 {
+            let h = &self.rx[self.pos..self.pos + 9];
+            let len = ((h[0] as usize) << 16) | ((h[1] as usize) << 8) | h[2] as usize;
+            let (ty, fl) = (h[3], h[4]);
+            let sid = u32::from_be_bytes([h[5], h[6], h[7], h[8]]) & 0x7fff_ffff;
+            if self.rx.len() - self.pos - 9 < len {
+                break;
+            }
+            let pl = self.rx[self.pos + 9..self.pos + 9 + len].to_vec();
+            self.pos += 9 + len;
+            match ty {
+                4 if fl & 1 == 0 => {
+                    for e in pl.chunks(6) {
+                        if e.len() == 6 && u16::from_be_bytes([e[0], e[1]]) == 4 {
+                            let v = u32::from_be_bytes([e[2], e[3], e[4], e[5]]) as i64;
+                            for w in self.stream_avail.values_mut() {
+                                *w += v - self.peer_init;
+                            }
+                            self.peer_init = v;
+                        }
+                    }
+                    self.settings_seen = true;
+                    self.out.extend_from_slice(&frame(4, 1, 0, &[]));
+                }
+                4 => self.settings_acked = true,
+                8 if pl.len() == 4 => {
+                    let inc = (u32::from_be_bytes([pl[0], pl[1], pl[2], pl[3]]) & 0x7fff_ffff) as i64;
+                    if sid == 0 {
+                        self.conn_avail += inc;
+                        self.conn_credit += inc;
+                        if !self.data_started {
+                            self.full_window += inc;
+                        }
+                    } else if let Some(w) = self.stream_avail.get_mut(&sid) {
+                        *w += inc;
+                    }
+                }
+                6 if fl & 1 == 0 => self.out.extend_from_slice(&frame(6, 1, 0, &pl)),
+                1 => {
+                    if let Ok(list) = self.dec.decode(&pl) {
+                        if let Some((_, v)) = list.iter().find(|(k, _)| k == b":status") {
+                            self.status.insert(sid, String::from_utf8_lossy(v).into_owned());
+                        }
+                    }
+                    if fl & 1 != 0 {
+                        self.ended.insert(sid);
+                    }
+                }
+                0 => {
+                    if fl & 1 != 0 {
+                        self.ended.insert(sid);
+                    }
+                }
+                3 if pl.len() == 4 => {
+                    self.rst.insert(sid, u32::from_be_bytes([pl[0], pl[1], pl[2], pl[3]]));
+                }
+                7 if pl.len() >= 8 => {
+                    self.goaway = Some((u32::from_be_bytes([pl[0], pl[1], pl[2], pl[3]]) & 0x7fff_ffff, u32::from_be_bytes([pl[4], pl[5], pl[6], pl[7]])));
+                }
+                _ => {}
+            }
+        }
+        self.flush();
+    }
+
+    fn over(&self) -> bool {
+        self.closed.is_some() || self.goaway.is_some()
+    }
+
+    /// queue DATA for `sid` from `payload[*off..]`, as much as both advertised windows allow;
+    /// returns true when the last byte (with END_STREAM) is queued
+    fn send_data(&mut self, sid: u32, payload: &[u8], off: &mut usize, end_stream: bool) -> bool {
+        loop {
+            let sw = *self.stream_avail.get(&sid).unwrap_or(&0);
+            let room = sw.min(self.conn_avail).min(16384);
+            let left = payload.len() - *off;
+            if left == 0 {
+                if end_stream {
+                    self.out.extend_from_slice(&frame(0, 1, sid, &[]));
+                }
+                return true;
+            }
+            if room <= 0 {
+                return false;
+            }
+            let n = (room as usize).min(left);
+            let last = n == left;
+            self.out.extend_from_slice(&frame(0, (last && end_stream) as u8, sid, &payload[*off..*off + n]));
+            *off += n;
+            *self.stream_avail.entry(sid).or_insert(0) -= n as i64;
+            self.conn_avail -= n as i64;
+            self.sent_total += n as i64;
+            self.data_started = true;
+            if last {
+                return true;
+            }
+        }
+    }
+}
+
+fn rxledger_scenarios() -> Vec<(&'static str, Vec<RxStep>, usize)> {
+    use RxStep::*;
+    let full = 65535usize;
+    vec![
+        // control: nothing rejected
+        ("accepted-only", vec![Accept(30000), Accept(100000), Accept(1)], 200_000),
+        // one cause, many times, body pipelined behind the HEADERS (the window would be gone after 16)
+        ("authority-mismatch-x16", (0..16).map(|_| Reject("authority-mismatch", full)).collect(), 200_000),
+        // several causes mixed with accepted uploads
+        (
+            "mixed-causes",
+            vec![
+                Accept(30000), Reject("authority-mismatch", full), Reject("content-length-overrun", full), Accept(70000),
+                Reject("uppercase-header-name", full), Reject("connection-header", full), Reject("missing-path", full),
+                Reject("content-length-overrun", full), Accept(16384), Reject("te-not-trailers", full), Reject("authority-mismatch", full),
+                Reject("uppercase-header-name", full), Reject("content-length-overrun", full), Reject("missing-path", full),
+                Reject("connection-header", full), Reject("authority-mismatch", 20000),
+            ],
+            200_000,
+        ),
+        // small bodies behind rejected HEADERS, many of them
+        ("many-small", (0..40).map(|i| if i % 5 == 4 { Accept(5000) } else { Reject(["authority-mismatch", "content-length-overrun", "missing-path", "uppercase-header-name"][i % 4], 12000) }).collect(), 300_000),
+    ]
+}
+
+fn case_front_rxledger(ctx: &mut Ctx, tls: &mut TlsCtx, name: &str, steps: &[RxStep], final_upload: usize, fails: &mut Vec<Fail>, dist: &mut BTreeMap<String, u64>) -> String {
+    use std::io::Write;
+    let (path, _cid, be) = route_tls(ctx, tls, "w", false);
+    let n_rej = steps.iter().filter(|s| matches!(s, RxStep::Reject(..))).count();
+    let case = format!("rx-ledger[{name}] path={path} steps={} ({} rejected) final_upload={final_upload}", steps.len(), n_rej);
+    *dist.entry(format!("rx-ledger:{name}")).or_insert(0) += 1;
+    let stop = std::sync::Arc::new(std::sync::atomic::AtomicBool::new(false));
+    let stop_b = stop.clone();
+    // backend: every complete request is answered 200 "ok"; any number of connections
+    let bt = std::thread::spawn(move || {
+        let mut handlers = vec![];
+        while !stop_b.load(std::sync::atomic::Ordering::Relaxed) {
+            if let Ok(mut b) = be.accept(Duration::from_millis(50)) {
+                let stop_c = stop_b.clone();
+                handlers.push(std::thread::spawn(move || {
+                    while !stop_c.load(std::sync::atomic::Ordering::Relaxed) {
+                        match read_http_message(&mut b, Duration::from_millis(300)) {
+                            Ok(_) => {
+                                if b.write_all(b"HTTP/1.1 200 OK\r\nContent-Length: 2\r\n\r\nok", T).is_err() {
+                                    return;
+                                }
+                            }
+                            Err(e) => {
+                                if !format!("{e:?}").contains("Timeout") || b.received.len() > b.parsed {
+                                    // closed, reset, or a request cut short by a reset stream
+                                    if !format!("{e:?}").contains("Timeout") {
+                                        return;
+                                    }
+                                }
+                            }
+                        }
+                    }
+                }));
+            }
+        }
+        for h in handlers {
+            let _ = h.join();
+        }
+    });
+    let done = |stop: &std::sync::Arc<std::sync::atomic::AtomicBool>| stop.store(true, std::sync::atomic::Ordering::Relaxed);
+    let st = match tls_front(tls.front, Duration::from_millis(20)) {
+        Ok(s) => s,
+        Err(e) => {
+            done(&stop);
+            fails.push(Fail { class: "h2front-transfer-failed".into(), detail: format!("tls connect: {e:?}"), case: case.clone() });
+            return case;
+        }
+    };
+    let mut cl = LedgerClient {
+        st, rx: vec![], pos: 0, enc: loona_hpack::Encoder::new(), dec: loona_hpack::Decoder::new(), peer_init: 65535, conn_avail: 65535,
+        stream_avail: BTreeMap::new(), conn_credit: 0, sent_total: 0, data_started: false, full_window: 65535, rst: BTreeMap::new(),
+        status: BTreeMap::new(), ended: Default::default(), goaway: None, settings_seen: false, settings_acked: false, closed: None, out: vec![],
+    };
+    let mut hello = b"PRI * HTTP/2.0\r\n\r\nSM\r\n\r\n".to_vec();
+    hello.extend_from_slice(&settings_frame(&[(4, 1 << 20)]));
+    hello.extend_from_slice(&frame(8, 0, 0, &(1u32 << 24).to_be_bytes()));
+    if cl.st.write_all(&hello).and_then(|_| cl.st.flush()).is_err() {
+        done(&stop);
+        fails.push(Fail { class: "h2front-transfer-failed".into(), detail: "write hello".into(), case: case.clone() });
+        return case;
+    }
+    // sozu's SETTINGS, its initial connection WINDOW_UPDATE and the ACK of ours, before any DATA
+    let t_hs = Instant::now();
+    while !(cl.settings_seen && cl.settings_acked) && t_hs.elapsed() < Duration::from_secs(3) && !cl.over() {
+        cl.pump();
+    }
+    for _ in 0..3 {
+        cl.pump();
+    }
+    let mut sid = 1u32;
+    let mut rejected_bytes: i64 = 0;
+    let mut outcomes: Vec<String> = vec![];
+    let mut problem: Option<(String, String)> = None;
+    let mut all: Vec<(RxStep, bool)> = steps.iter().map(|s| (*s, false)).collect();
+    all.push((RxStep::Accept(final_upload), true));
+    for (i, (step, is_final)) in all.iter().enumerate() {
+        if cl.over() {
+            break;
+        }
+        let p = format!("{path}/u{i}");
+        let (n, cause) = match step {
+            RxStep::Accept(n) => (*n, None),
+            RxStep::Reject(c, n) => (*n, Some(*c)),
+        };
+        let cls = n.to_string();
+        let mut hs: Vec<(&[u8], &[u8])> = vec![(b":method", b"POST"), (b":scheme", b"https")];
+        if cause != Some("missing-path") {
+            hs.push((b":path", p.as_bytes()));
+        }
+        hs.push((b":authority", b"localhost"));
+        match cause {
+            Some("authority-mismatch") => hs.push((b"host", b"other.example")),
+            Some("uppercase-header-name") => hs.push((b"X-Upper", b"1")),
+            Some("connection-header") => hs.push((b"connection", b"keep-alive")),
+            Some("te-not-trailers") => hs.push((b"te", b"gzip")),
+            _ => {}
+        }
+        if cause == Some("content-length-overrun") {
+            hs.push((b"content-length", b"10"));
+        } else {
+            hs.push((b"content-length", cls.as_bytes()));
+        }
+        let blk = cl.enc.encode(hs);
+        cl.out.extend_from_slice(&frame(1, 4, sid, &blk));
+        cl.stream_avail.insert(sid, cl.peer_init);
+        let payload: Vec<u8> = (0..n).map(upload_byte).collect();
+        let mut off = 0usize;
+        let before = cl.sent_total;
+        let deadline = Instant::now() + Duration::from_secs(if cause.is_some() { 3 } else { 8 });
+        let mut queued_all = false;
+        loop {
+            // a rejected stream: the client stops once it has seen the reset / the final answer
+            let rejected_seen = cl.rst.contains_key(&sid) || cl.ended.contains(&sid);
+            if cause.is_some() && rejected_seen {
+                break;
+            }
+            if cause.is_none() && (cl.ended.contains(&sid) || cl.rst.contains_key(&sid)) {
+                break;
+            }
+            if !queued_all {
+                queued_all = cl.send_data(sid, &payload, &mut off, true);
+            }
+            if cl.over() {
+                break;
+            }
+            if Instant::now() > deadline {
+                break;
+            }
+            cl.pump();
+        }
+        let sent_here = cl.sent_total - before;
+        let st_txt = cl.status.get(&sid).cloned();
+        let outcome = format!(
+            "#{i} stream {sid} {}: sent {sent_here}/{n}, {}{}",
+            cause.unwrap_or("accept"),
+            match cl.rst.get(&sid) {
+                Some(c) => format!("RST_STREAM({c})"),
+                None => "no reset".into(),
+            },
+            st_txt.as_ref().map(|s| format!(", :status {s}")).unwrap_or_default()
+        );
+        if let Some(c) = cause {
+            rejected_bytes += sent_here;
+            let kind = if cl.rst.contains_key(&sid) { "rst" } else if st_txt.is_some() { "status" } else { "silent" };
+            *dist.entry(format!("rx-ledger:outcome:{c}:{kind}")).or_insert(0) += 1;
+        } else {
+            let ok = st_txt.as_deref() == Some("200") && cl.ended.contains(&sid) && off == n;
+            if !ok && problem.is_none() && !cl.over() {
+                let blocked = off < n && cl.stream_avail.get(&sid).copied().unwrap_or(0).min(cl.conn_avail) <= 0;
+                let class = if blocked && rejected_bytes > 0 {
+                    "h2-front-upload-stalled-after-rejected-streams"
+                } else if blocked {
+                    "h2-front-upload-stalled"
+                } else {
+                    "h2front-transfer-failed"
+                };
+                problem = Some((class.into(), format!(
+                    "{} upload of {n} bytes did not complete: {off} bytes sent, then blocked={blocked} (connection window left {}, stream window left {:?}); {outcome}",
+                    if *is_final { "the final" } else { "an accepted" }, cl.conn_avail, cl.stream_avail.get(&sid)
+                )));
+            }
+        }
+        outcomes.push(outcome);
+        sid += 2;
+        if problem.is_some() {
+            break;
+        }
+    }
+    // let the last WINDOW_UPDATEs arrive
+    let t_settle = Instant::now();
+    while t_settle.elapsed() < Duration::from_millis(150) && !cl.over() {
+        cl.pump();
+    }
+    done(&stop);
+    let _ = bt.join();
+    let outstanding = cl.full_window - cl.conn_avail;
+    let ledger = format!(
+        "sozu's connection window {} (65535 + {} before the first DATA byte); {} flow-controlled bytes sent, {} of them on {} streams sozu rejected; WINDOW_UPDATE(0) credit received {}; window left {} => {} bytes not given back",
+        cl.full_window, cl.full_window - 65535, cl.sent_total, rejected_bytes, n_rej, cl.conn_credit, cl.conn_avail, outstanding
+    );
+    if let Some((ge, code)) = cl.goaway {
+        // a connection error ends the scenario: report it unless it is the flood defence (C15's subject)
+        if code != 11 {
+            fails.push(Fail { class: "h2-front-goaway-during-rejected-uploads".into(), detail: format!("GOAWAY(last={ge}, error={code}); {}; {ledger}", outcomes.join(" | ")), case: case.clone() });
+        } else {
+            *dist.entry("rx-ledger:enhance-your-calm".into()).or_insert(0) += 1;
+        }
+        return case;
+    }
+    if let Some(c) = &cl.closed {
+        fails.push(Fail { class: "h2front-transfer-failed".into(), detail: format!("{c}; {}; {ledger}", outcomes.join(" | ")), case: case.clone() });
+        return case;
+    }
+    if let Some((class, detail)) = problem {
+        fails.push(Fail { class, detail: format!("{detail}; {ledger}; last steps: {}", outcomes.iter().rev().take(4).cloned().collect::<Vec<_>>().join(" | ")), case: case.clone() });
+    }
+    // sozu replenishes when half of its window has been consumed: at rest, less than half is out
+    if outstanding > cl.full_window / 2 {
+        fails.push(Fail {
+            class: "h2-front-connection-window-not-replenished".into(),
+            detail: format!("at rest more than half of the advertised connection window is missing: {ledger}; steps: {}", outcomes.iter().take(6).cloned().collect::<Vec<_>>().join(" | ")),
+            case: case.clone(),
+        });
+    }
+    if std::env::var("E2E_RXLEDGER_TRACE").is_ok() {
+        eprintln!("{case}\n  {ledger}\n  {}", outcomes.join("\n  "));
+    }
+    case
+}
+
 fn hpack_scenarios() -> Vec<(&'static str, Option<u32>, Vec<HpStep>)> {
     let r = |set: usize| HpStep::Request { set, body: 2, during: None };
     vec![
@@ -2960,6 +3361,22 @@ fn main() {
                         }
                     }
                     dist.insert("hpack_wall_ms".into(), t0.elapsed().as_millis() as u64);
+                }
+                if args.prop != "C03" && (family.is_empty() || family == "rxledger" || family == "h2front") {
+                    let t_rx = Instant::now();
+                    for (name, steps, final_upload) in rxledger_scenarios() {
+                        let case = guarded(&mut guard, &format!("rx-ledger[{name}]"), &mut fails, &mut dist, |fails, dist| case_front_rxledger(&mut ctx, &mut t, name, &steps, final_upload, fails, dist));
+                        evaluations += 1;
+                        if let (Some(case), true) = (case, name == "mixed-causes") {
+                            samples.push(json!({"case": case}));
+                        }
+                    }
+                    dist.insert("rxledger_wall_ms".into(), t_rx.elapsed().as_millis() as u64);
+                }
+                if family == "rxledger" {
+                    ctx.w.stop();
+                    finish(&args, evaluations, &dist, &samples, &mut fails, &known_witnesses, &guard, t0);
+                    return;
                 }
                 if family == "hpack" {
                     ctx.w.stop();
